@@ -148,8 +148,15 @@ func bases() []base {
 		{"sparse", &sbom.Node{Id: "n", Name: "sparse", Type: sbom.Node_FILE, Licenses: []string{"MIT"}, Hashes: map[int32]string{1: "aa"}}},
 		{"full", full},
 		{"full-dup", dup},
+		{"full20", full20()},
 		{"full-subsecond-dates", subsec()},
 	}
+}
+
+func full20() *sbom.Node {
+	n := &sbom.Node{}
+	gen.Full(n, "W", 20)
+	return n
 }
 
 // subsec: fully populated node whose three dates carry 700 ms.
@@ -169,6 +176,9 @@ func Run(c *engine.Ctx) {
 	crafted(c, fds)
 	for _, b := range bases() {
 		b := b
+		if b.Label == "full20" && !c.Thorough() {
+			continue // size class: thorough tier
+		}
 		depth := 2
 		devs := gen.Deviations(b.Node, depth)
 		c.Group("base-" + b.Label)
